@@ -161,7 +161,7 @@ func genUnknownOID(r *rand.Rand) []int {
 	case 2:
 		return []int{1, 2, 840, 113549, 1, 9, 2 + r.IntN(6)} // pkcs-9 unstructuredName …
 	default:
-		return []int{2, 999, 1 + r.IntN(1 << 20)}
+		return []int{2, 999, 1 + r.IntN(1<<20)}
 	}
 }
 
